@@ -359,7 +359,7 @@ func (x *producerController) handleRegisterConsumer(ctx *ReceiveContext, registe
 		ctx.Watch(ctx.Sender())
 		x.consumerController = ctx.Sender()
 		x.registrationNonce = register.Nonce()
-		x.demandUpTo = x.currentSeq
+		x.demandUpTo = min(x.demandUpTo, x.currentSeq)
 	}
 
 	ack, err := commands.NewRegistrationAck(x.sessionID, x.confirmedSeq+1, x.registrationNonce)
